@@ -193,6 +193,40 @@ theorem entity_listeners_stable {p : Prog} {hh : Hist} (e : Nat) (rt : RType) {s
     entListeners s' e rt = entListeners s e rt := by
   simp only [entListeners, entity_stable_run e h ha]
 
+/-- **Mutation, along an execution**: whatever ran since the last command naming the entity or the type-wide mutation key
+    (and while the entity lives), a mutation of `React<C>` on `e` applied now is delivered to exactly the entity-scoped
+    listeners and then the type-wide ones registered then, one delivery per registration, in order. -/
+theorem mutation_delivers_to_registered {p : Prog} {hh : Hist} (e ty : Nat) {s s' : St}
+    (h1 : QuietRun p hh (fun x => (∃ c, nextCmd x = some c ∧ touchesEnt e c) ∨ x.alive e = false) s s') (ha : s'.alive e = true)
+    (h2 : QuietRun p hh (fun x => ∃ c, nextCmd x = some c ∧ touchesTbl .mut ty c) s s') :
+    ∃ cs, applyCmd s' (.mutReact e ty) = s'.push [.flush, .batch cs] ∧
+      targets cs = entListeners s e ⟨.mut, ty⟩ ++ (s.tbl .mut ty).map (·.sys) := by
+  obtain ⟨cs, a, b⟩ := mutation_dispatch s' e ty
+  exact ⟨cs, a, by rw [b, entity_listeners_stable e _ h1 ha, typewide_stable_run .mut ty h2]⟩
+
+/-- **Insertion, along an execution** (when the component really was inserted). -/
+theorem insertion_delivers_to_registered {p : Prog} {hh : Hist} (e ty : Nat) {s s' : St}
+    (h1 : QuietRun p hh (fun x => (∃ c, nextCmd x = some c ∧ touchesEnt e c) ∨ x.alive e = false) s s') (ha : s'.alive e = true)
+    (h2 : QuietRun p hh (fun x => ∃ c, nextCmd x = some c ∧ touchesTbl .ins ty c) s s')
+    (hc : (alookup (s'.comp e) ty).isSome) :
+    ∃ cs, applyCmd s' (.insReact e ty) = s'.push [.flush, .batch cs] ∧
+      targets cs = entListeners s e ⟨.ins, ty⟩ ++ (s.tbl .ins ty).map (·.sys) := by
+  obtain ⟨cs, a, b⟩ := insertion_dispatch s' e ty hc
+  exact ⟨cs, a, by rw [b, entity_listeners_stable e _ h1 ha, typewide_stable_run .ins ty h2]⟩
+
+/-- **Entity event, along an execution**: delivered to the listeners of `(e, event type)` and the `any_entity_event`
+    reactors registered by the last commands naming those keys — or, with none, dropped at once. -/
+theorem entityEvent_delivers_to_registered {p : Prog} {hh : Hist} (e ty pid : Nat) {s s' : St}
+    (h1 : QuietRun p hh (fun x => (∃ c, nextCmd x = some c ∧ touchesEnt e c) ∨ x.alive e = false) s s') (ha : s'.alive e = true)
+    (h2 : QuietRun p hh (fun x => ∃ c, nextCmd x = some c ∧ touchesTbl .anyEv ty c) s s')
+    (hne : (entListeners s e ⟨.ev, ty⟩).length + (s.tbl .anyEv ty).length ≠ 0) :
+    ∃ d x cs, applyCmd s' (.entityEvent e ty pid) = s'.fresh.2.push [.flush, .batch (Cmd.spawnData d x :: cs)] ∧
+      targets cs = entListeners s e ⟨.ev, ty⟩ ++ (s.tbl .anyEv ty).map (·.sys) := by
+  have e1 := entity_listeners_stable e ⟨.ev, ty⟩ h1 ha
+  have e2 := typewide_stable_run .anyEv ty h2
+  obtain ⟨d, x, cs, a, b, _⟩ := entityEvent_dispatch s' e ty pid (by rw [e1, e2]; exact hne)
+  exact ⟨d, x, cs, a, by rw [b, e1, e2]⟩
+
 /-- Non-vacuity: two reactors on one broadcast key are both dispatched, in table order. -/
 example : ∃ d x cs, applyCmd ({ tbl := fun t ty => if t = .bc ∧ ty = 0 then [⟨7, none⟩, ⟨9, some 0⟩] else [] } : St) (.broadcast 0 5) =
       (({ tbl := fun t ty => if t = .bc ∧ ty = 0 then [⟨7, none⟩, ⟨9, some 0⟩] else [] } : St).fresh.2).push [.flush, .batch (Cmd.spawnData d x :: cs)] ∧
